@@ -170,6 +170,64 @@ def late_cases():
                            family='late:%s:%s' % (fam, wrap))
 
 
+def raising_cases():
+    """A condition raises while it is evaluated; an enclosing try handles
+    it; afterwards the same names are tested again (nothing of the failed
+    conditional may be left behind)."""
+    ns = dict(
+        oa=dict(t='obj', attrs=dict(xo='o', late=0)),
+        ss=dict(t='list', items=['s', 't']),
+        c0=dict(t='rec', id='c0', ret=0), c1=dict(t='rec', id='c1', ret=1),
+        cx=dict(t='rec', id='cx', ret=1, raises='VfB'),
+        plain='p', VfB=dict(t='exc', n='VfB'))
+
+    def name(n):
+        return dict(r='name', n=n)
+
+    def iff(conds, bodies, els=None):
+        return dict(k='if', conds=[name(c) if isinstance(c, str) else c
+                                   for c in conds], bodies=bodies,
+                    **{'else': els})
+    boom_expr = dict(r='expr', e=dict(e='callname', n='cx'))
+    after = [iff(['c0'], [[T('T0')]], [T('F0')]),
+             iff(['c1'], [[T('T1'), V('c1')]], [T('F1')]),
+             dict(k='unless', ref=name('c0'), body=[T('U0')]),
+             dict(k='call', ref=name('c1')),
+             dict(k='var', ref=name('xo'), opts=[['missing', '∅']])]
+    chains = {
+        'second-raises': iff(['c0', 'cx', 'c1'], [[T('a')], [T('b')],
+                                                  [T('c')]], [T('e')]),
+        'first-raises': iff(['cx', 'c1'], [[T('a')], [T('b')]]),
+        'after-true-name': iff(['c0', 'c1', 'cx'], [[T('a')], [T('b'), V(
+            'cx')], [T('c')]]),
+        'expr-raises': iff(['c1', 'c0'], [[dict(k='if', conds=[
+            name('c0'), boom_expr], bodies=[[T('x')], [T('y')]],
+            **{'else': None})], [T('b')]]),
+        'unless-raises': dict(k='unless', ref=name('cx'), body=[T('u')]),
+        'call-raises': dict(k='call', ref=name('cx')),
+    }
+    for fam, chain in sorted(chains.items()):
+        for wrap in ('plain', 'with', 'in', 'let'):
+            tr = dict(k='try', body=[T('('), chain, T(')')],
+                      handlers=[dict(names=['VfA'], body=[T('E')] + after)],
+                      **{'else': None, 'finally': None})
+            inner = [tr, T('|')] + after
+            if wrap == 'with':
+                ast = [dict(k='with', ref=name('oa'), mapping=False,
+                            only=False, body=inner)] + after
+            elif wrap == 'in':
+                ast = [dict(k='in', ref=name('ss'), opts=[], body=inner,
+                            **{'else': None})] + after
+            elif wrap == 'let':
+                ast = [dict(k='let', binds=[['la', name('plain')]],
+                            body=inner)] + after
+            else:
+                ast = inner
+            for sx in ('dtml', 'ssi', 'epfs'):
+                yield dict(ast=[T('<')] + ast + [T('>')], ns=ns, syntax=sx,
+                           family='raising:%s:%s' % (fam, wrap))
+
+
 def run(ast, ns, syntax='dtml', style=None):
     src, toks = dtml.print_ast(ast, syntax, dtml.Style(style) if style
                                else None)
@@ -260,7 +318,8 @@ def run_shard(shard):
                     if bad and bad != 'unspecified':
                         acc.fail(form + ':' + bad[0], [form, kd, sx], bad[1])
     elif kind == 'late':
-        for c in late_cases():
+        import itertools as _it
+        for c in _it.chain(late_cases(), raising_cases()):
             bad = run(c['ast'], c['ns'], c['syntax'])
             case = dict(late=c['family'], syntax=c['syntax'])
             acc.case(case, True, klass='late-definition',
@@ -290,7 +349,8 @@ def run_shard(shard):
 
 def replay(case):
     if isinstance(case, dict) and 'late' in case:
-        for c in late_cases():
+        import itertools as _it
+        for c in _it.chain(late_cases(), raising_cases()):
             if c['family'] == case['late'] and c['syntax'] == case['syntax']:
                 bad = run(c['ast'], c['ns'], c['syntax'])
                 return ('late:' + bad[0], bad[1]) if bad and \
